@@ -60,6 +60,27 @@ def run(ctx):
 
     inputs = dwcheck.build_inputs(ctx, 50 if quick else 400, imports=True, links=True)
     dwcheck.compare_views(ctx, inputs, ("cooked",), ["off", "tag", "kids", "attrs"], bad, stats)
+    # find_attribute against its model (dw/FindAttr.v; C06_atval_is_first_attribute ties that model to the producer's):
+    # for every stored DIE and ten attribute names, which DIE `@AT_x` / `?AT_x` / the first `attribute ?AT_x` take it from
+    FNAMES = [1, 3, 11, 28, 49, 59, 60, 63, 71, 0x2007]
+    fmodels = dwforest.model_rows([f_ for _, f_, _ in inputs])
+    fq = "raw entry (|E| [E offset, %s])" % ", ".join("[E cooked attribute ?(label value == %d)]" % x for x in FNAMES)
+    for (name_, f_, path_), m_ in zip(inputs, fmodels):
+        r_ = zw.run_cases([zw.enc(fq, dw=path_, t=60, max=20000)])[0]
+        stats["evaluations"] += 1
+        if not r_.ok():
+            bad("`%s` on %s fails: %s" % (fq[:60], name_, str(r_.crash or r_.hard)[:100]), {"input": name_, "file": path_, "query": fq})
+            continue
+        for st in r_.results:
+            v_ = st[0]["v"]
+            off_ = int(v_[0]["v"])
+            for x_, lst_ in zip(FNAMES, v_[1:]):
+                got_ = (lst_["v"][0]["die"], lst_["v"][0]["form"]) if lst_["v"] else None
+                want_ = m_["find"].get(off_, {}).get(x_)
+                if got_ != want_:
+                    bad("DIE %#x of %s, attribute name %#x: the first `attribute` of that name sits on DIE / has form %s; the model of find_attribute finds %s" % (off_, name_, x_, got_, want_),
+                        {"input": name_, "file": path_, "die": off_, "attribute": x_, "kind": "find-attribute"})
+                    break
     dwcheck.compare_archives(ctx, inputs, ("cooked",), ["off", "tag", "kids", "attrs"], bad, stats)
     voc = set(zw.run_cases(["@m=voc"])[0].d["words"])
     P = pairs(voc)
